@@ -152,7 +152,7 @@ impl Property for C02 {
         Meta {
             id: "C02",
             level: "fault_enumeration",
-            rule: "one evaluation = a real validation (Reader::with_stream, or with_manifest_data_and_stream for the sidecar case) after ONE stored-byte fault inside the embedded manifest store of a really-signed tiny asset: every store byte x {^0x01, ^0x80, ^0xFF, =0x00}, zeroing of each whole assertion box payload, swap of adjacent assertion boxes; 16 cases (11 formats single manifest; JPEG box-hash/compressed; JPEG/PNG/MP4 with a signed ingredient i.e. two manifests in the store; JPEG sidecar). Oracle: read fails, or Invalid, or (state, report, signature info, code multiset) identical to the clean read; and for bytes the simulator's own JUMBF walker attributes to a claim content box or an assertion box of any manifest in the store: never Valid/Trusted. Non-trivial = the fault changed a byte; distinct = (case, position, pattern)",
+            rule: "one evaluation = a real validation (Reader::with_stream, or with_manifest_data_and_stream for the sidecar case) after ONE stored-byte fault inside the embedded manifest store of a really-signed tiny asset: every store byte x {^0x01, ^0x80, ^0xFF, =0x00}, zeroing of each whole assertion box payload, swap of adjacent assertion boxes; on the sidecar store JUMBF structure edits with all enclosing sizes repaired (assertion duplicated / duplicated under another label / dropped, claim and signature exchanged, signature duplicated, the claim attached as the COSE payload with and without an edit of the claim box); 16 cases (11 formats single manifest; JPEG box-hash/compressed; JPEG/PNG/MP4 with a signed ingredient i.e. two manifests in the store; JPEG sidecar). Oracle: read fails, or Invalid, or (state, report, signature info, code multiset) identical to the clean read; and for bytes the simulator's own JUMBF walker attributes to a claim content box or an assertion box of any manifest in the store: never Valid/Trusted. Non-trivial = the fault changed a byte; distinct = (case, position, pattern)",
             assumptions: &[
                 "the store is located as a contiguous substring (store[8..]) of the asset; when it is not contiguous only faults on the SDK-reported... are skipped and counted as a probe",
                 "COSE padding, data-hash pad bytes outside assertion boxes, and free space are judged by the three-way disjunction only",
@@ -310,6 +310,10 @@ impl Property for C02 {
                 let sig = case.store[ss..se].to_vec();
                 edits.push(("signature box duplicated".into(), jumbf::splice(&case.store, se, 0, &sig, (ss, se))));
             }
+            // the original claim attached as the COSE payload (written detached by the SDK), and
+            // the claim box itself edited: signature and headers untouched
+            edits.push(("claim attached as COSE payload, claim box edited".into(), crate::forge::attach_payload_and_edit_claim(&case.store, b"c2pasim", b"c2pasin")));
+            edits.push(("claim attached as COSE payload, claim box untouched".into(), crate::forge::attach_payload_and_edit_claim(&case.store, b"c2pasim", b"c2pasim")));
             for (n, (what, m)) in edits.iter().enumerate() {
                 let sub = 10_000_000 + n as u64;
                 if !rc.want_sub(sub) {
